@@ -126,6 +126,8 @@ class TextureVisuals(Visuals):
         copied : TextureVisuals
           Contains the same information in a new object
         """
+        # other per-vertex channels only match our own vertices
+        keep = uv is None
         if uv is None:
             uv = self.uv
         if uv is not None:
@@ -135,6 +137,10 @@ class TextureVisuals(Visuals):
             material=self.material.copy(),
             face_materials=copy.copy(self.face_materials),
         )
+        if keep:
+            for key, value in self.vertex_attributes.items():
+                if key != "uv":
+                    copied.vertex_attributes[key] = copy.deepcopy(value)
 
         return copied
 
